@@ -242,6 +242,132 @@ pub fn check_with(m: &AnyM, case: &Case) -> Verdict {
     Verdict::Pass(info)
 }
 
+// ---------- -m N at the CLI ----------
+
+#[derive(Clone, Debug, Serialize, Deserialize)]
+pub struct MaxCase {
+    pub lines: Vec<Bs>,
+    pub final_term: bool,
+    pub max_count: usize,
+    pub after: usize,
+    pub before: usize,
+    pub json: bool,
+    pub mmap: bool,
+}
+
+pub fn gen_max_case(t: &mut Tape) -> MaxCase {
+    let n = t.below(30);
+    let density = 1 + t.below(5) as u32;
+    let lines = (0..n)
+        .map(|_| {
+            let len = t.small(6);
+            let mut l: Vec<u8> = (0..len).map(|_| *t.pick(&[b'o', b'p', b' '])).collect();
+            if t.chance(density, 6) {
+                let p = t.below(l.len() + 1);
+                l.insert(p, b'x');
+            }
+            Bs(l)
+        })
+        .collect();
+    MaxCase { lines, final_term: !t.chance(1, 4), max_count: t.below(6), after: t.small(4), before: t.small(3), json: t.chance(1, 3), mmap: t.bool() }
+}
+
+/// `rg -m N -A a -B b x f`: exactly the first N matching lines plus the
+/// context they are entitled to (the lines following the N-th match may be
+/// printed with either marker; only which lines appear, and in order, is asserted).
+pub fn check_max(case: &MaxCase) -> Verdict {
+    use crate::cli::{Rg, TempDir};
+    let input = super::c03::input_of(&case.lines, case.final_term, Term::Lf);
+    let dir = TempDir::fast("c16m");
+    dir.write("f", &input);
+    let mut rg = Rg::new(&dir.path).args(["--no-config", "--color", "never", "-a", "-j1", "-n", "--no-heading", "--no-filename"]);
+    rg = rg.arg(if case.mmap { "--mmap" } else { "--no-mmap" });
+    rg = rg.arg(format!("-m{}", case.max_count)).arg(format!("-A{}", case.after)).arg(format!("-B{}", case.before));
+    if case.json {
+        rg = rg.arg("--json");
+    }
+    rg = rg.arg("-e").arg("x").arg("f");
+    let cmd = rg.cmdline();
+    let out = rg.run();
+    if out.timed_out {
+        return Verdict::Reject("timeout (inconclusive)");
+    }
+    let lines = crate::model::split_lines(&input, b'\n');
+    let matching: Vec<usize> = lines.iter().enumerate().filter(|(_, l)| input[l.start..l.end].contains(&b'x')).map(|(i, _)| i).collect();
+    let first: Vec<usize> = matching.iter().copied().take(case.max_count).collect();
+    let mut want: Vec<usize> = vec![];
+    for (i, _) in lines.iter().enumerate() {
+        if first.iter().any(|m| i + case.before >= *m && i <= *m + case.after) {
+            want.push(i + 1);
+        }
+    }
+    // observed line numbers, and which of them are marked as matches
+    let mut got: Vec<usize> = vec![];
+    let mut got_matches: Vec<usize> = vec![];
+    if case.json {
+        for l in out.stdout.split(|b| *b == b'\n') {
+            if l.is_empty() {
+                continue;
+            }
+            let Ok(v) = serde_json::from_slice::<serde_json::Value>(l) else {
+                return Verdict::Fail(Fail::new(format!("invalid JSON line\n cmd: {cmd}")));
+            };
+            let ty = v["type"].as_str().unwrap_or("");
+            if ty == "match" || ty == "context" {
+                let n = v["data"]["line_number"].as_u64().unwrap_or(0) as usize;
+                got.push(n);
+                if ty == "match" {
+                    got_matches.push(n);
+                }
+            }
+        }
+    } else {
+        for rec in out.stdout.split(|b| *b == b'\n') {
+            if rec.is_empty() || rec == b"--" {
+                continue;
+            }
+            let d = rec.iter().take_while(|b| b.is_ascii_digit()).count();
+            let Some(n) = std::str::from_utf8(&rec[..d]).ok().and_then(|x| x.parse::<usize>().ok()) else {
+                return Verdict::Fail(Fail::new(format!("cannot parse record {:?}\n cmd: {cmd}", Bs(rec.to_vec()))));
+            };
+            got.push(n);
+            if rec.get(d) == Some(&b':') {
+                got_matches.push(n);
+            }
+        }
+    }
+    let fail = |msg: String| {
+        Fail::new(format!(
+            "{msg}\n cmd: {cmd}\n input={:?}\n matching lines: {:?}\n expected printed lines: {want:?}\n observed printed lines: {got:?} (marked as matches: {got_matches:?})\n stdout={:?}",
+            Bs(input.clone()),
+            matching.iter().map(|i| i + 1).collect::<Vec<_>>(),
+            Bs(out.stdout[..out.stdout.len().min(800)].to_vec())
+        ))
+    };
+    if got != want {
+        return Verdict::Fail(fail(format!("-m {} -A {} -B {}: the printed lines are not the first {} matching lines plus their context", case.max_count, case.after, case.before, case.max_count)));
+    }
+    // the first N matching lines must be marked as matches
+    for m in &first {
+        if !got_matches.contains(&(m + 1)) {
+            return Verdict::Fail(fail(format!("line {} is among the first {} matching lines but is not printed as a match", m + 1, case.max_count)));
+        }
+    }
+    if got_matches.iter().any(|n| !matching.contains(&(n - 1))) {
+        return Verdict::Fail(fail("a non-matching line is printed as a match".into()));
+    }
+    let want_status = if first.is_empty() { 1 } else { 0 };
+    if out.status != Some(want_status) {
+        return Verdict::Fail(fail(format!("exit status {:?}, expected {want_status}", out.status)));
+    }
+    let mut info = Info::new(matching.len() > case.max_count && case.max_count > 0 && case.after > 0);
+    info.class_if(matching.len() > case.max_count, "limit_cuts_matches");
+    info.class_if(case.max_count == 0, "max_count_zero");
+    info.class_if(matching.get(case.max_count).map_or(false, |m| first.last().map_or(false, |l| *m <= l + case.after)), "further_match_inside_trailing_context");
+    info.class_if(case.json, "json");
+    Verdict::Pass(info)
+}
+
 pub fn run(pc: &PropCtx) {
     pc.rule(
         "for each generated search (matcher, configuration incl. binary detection, input <= 600 bytes, strategy) the uninterrupted event log L is recorded; then the sink returns stop, and separately an error, at EVERY event index of L (begin, match, context, break, binary notice), and for reader strategies the reader returns an I/O error, and separately Interrupted, at EVERY read index. Oracle: delivered == L[..=k] (+ exactly one finish after a stop, none after an error, error returned); read faults: delivered is a prefix of L, no finish, error returned. Non-trivial = |L| >= 4 with at least one context and one break event; distinct by hash. evaluations counts cases; classes count fault points by kind",
@@ -255,12 +381,20 @@ pub fn run(pc: &PropCtx) {
         pc.run_fuzz("C16:line_mode_faults", 150_000, 12000, &|v| replay(pc, "line_mode_faults", v).unwrap_or(Verdict::Reject("unreadable")));
         pc.run_fuzz("C16:multi_line_faults", 150_000, 6000, &|v| replay(pc, "multi_line_faults", v).unwrap_or(Verdict::Reject("unreadable")));
     }
+    pc.set_shrink_iters(300);
+    let m_cases = pc.tier.pick(4_000, 60_000);
+    pc.run_tape("max_count_cli", m_cases, (64, 400), gen_max_case, check_max);
+    pc.require_class("max_count_cli:further_match_inside_trailing_context", m_cases as u64 / 40);
     pc.require_class("line_mode_faults:stop_at_context", cases as u64 / 20);
     pc.require_class("line_mode_faults:stop_at_break", cases as u64 / 40);
     pc.require_class("line_mode_faults:read_faults_injected", cases as u64 / 10);
 }
 
 pub fn replay(_pc: &PropCtx, _sub: &str, case: &serde_json::Value) -> Result<Verdict, String> {
+    if _sub == "max_count_cli" {
+        let c: MaxCase = serde_json::from_value(case.clone()).map_err(|e| e.to_string())?;
+        return Ok(check_max(&c));
+    }
     let c: Case = serde_json::from_value(case.clone()).map_err(|e| e.to_string())?;
     Ok(check(&c))
 }
